@@ -151,6 +151,39 @@ def main(argv):
                                       tags=["base-exception", "idle-close", "pool-slot-lost"])
     finally:
         pool_mod.time = real_time
+    # ---- the application runs with warnings escalated to errors (`python -W error`): an interruption at send / receive still closes the connection, and the
+    #      next call gets its own reply on a fresh one (whatever the handler does besides closing must not stand in the way of closing) ----------------------
+    import warnings
+    from clientlib import run_call
+    from fakesock import FakeSocketModule, World, mk_exc
+    from refserver import RefServer
+    from pymemcache.client.base import Client as _Client
+    wcalls = [{"op": "get", "k": "a"}, {"op": "set", "k": "b", "v": b"2", "nr": False}, {"op": "delete", "k": "zz", "nr": False}, {"op": "incr", "k": "n", "d": 1, "nr": False},
+              {"op": "get_many", "ks": ["a", "b"]}, {"op": "touch", "k": "a", "e": 5, "nr": False}, {"op": "version"}]
+    with warnings.catch_warnings():
+        warnings.simplefilter("error")
+        for wc in wcalls:
+            for api in ("sendall", "recv"):
+                for kind_ in ("kbd", "sysexit") if "sysexit" in BASE_KINDS else ("kbd",):
+                    srv_ = RefServer()
+                    world_ = World(server=lambda conn, data, _s=srv_: [_s.feed(conn.id, data)])
+                    world_.tag = 0
+                    cl_ = _Client(("h", 1), socket_module=FakeSocketModule(world_), default_noreply=False)
+                    first = run_call(cl_, {"op": "set", "k": "a", "v": b"1", "nr": False})
+                    world_.arm({(api, 0): mk_exc(kind_)})
+                    r1 = run_call(cl_, dict(wc))
+                    world_.arm({})
+                    still_open = [c.id for c in world_.conns if not c.closed]
+                    r2 = run_call(cl_, {"op": "get", "k": "a"})
+                    ctx.case(("warnings-as-errors", wc["op"], api, kind_))
+                    ctx.count("interruptions with warnings escalated to errors")
+                    if not r1.startswith("exc:"):
+                        ctx.count("warnings-as-errors: the interruption did not strike (no verdict)")
+                        continue
+                    if first != "True" or still_open or r2 != "b:31":
+                        ctx.violation("with warnings escalated to errors an interrupted exchange did not close its connection, or the next call did not get its own reply",
+                                      {"call": wc["op"], "interrupted_in": api, "interruption": kind_, "result": r1, "connections_left_open": still_open, "next_get_a": r2},
+                                      tags=["base-exception", "warnings-as-errors"])
     if ctx.lean.build_ok and model_lines:
         outs = ctx.driver.batch(model_lines)
         for line, (case, r, sock_open, unread, sent, sf, cf), o in zip(model_lines, model_meta, outs):
